@@ -193,7 +193,9 @@ func viewOf(res *bleve.SearchResult) resultView {
 // per tie group (equal sort keys) as sets.
 func compareViews(a, b resultView, total bool, multiTerm bool) [][2]string {
 	var out [][2]string
-	add := func(clause, format string, args ...any) { out = append(out, [2]string{clause, fmt.Sprintf(format, args...)}) }
+	add := func(clause, format string, args ...any) {
+		out = append(out, [2]string{clause, fmt.Sprintf(format, args...)})
+	}
 	if a.Total != b.Total {
 		add("total-differs", "Total %d vs %d", a.Total, b.Total)
 	}
